@@ -46,7 +46,7 @@ NUM = re.compile(r'^[-+]?(\d+\.?\d*|\.\d+)([eE][-+]?\d+)?$')
 
 
 def n_cases(tier):
-    return 160 if tier == 'quick' else 2000
+    return 200 if tier == 'quick' else 10000
 
 
 # ------------------------------------------------------------------------------------------------
